@@ -382,7 +382,10 @@ def run_shard(ctx):
         if ctx.out_of_time():
             break
         if i % 12 == 0:
-            chain_depth_experiment(ctx, pydsdl, ctx.rng, ctx.tmp)
+            try:
+                chain_depth_experiment(ctx, pydsdl, ctx.rng, ctx.tmp)
+            except Exception as ex:  # noqa
+                ctx.violation("C09/foreign-exception", "reading a valid chain of definitions raised %r" % (ex,), {"chain_experiment": True})
         seed = ctx.rng.randrange(1 << 40)
         ns = GN.gen_namespace(random.Random(seed))
         edges = sum(len(d["refs"]) for d in ns["defs"])
